@@ -69,6 +69,9 @@ def gen_trace(recipe):
     Xq = np.round(rng.normal(size=(nq, d)) * 4.0)
   elif recipe['qkind'] == 'train':
     Xq = Xtr[rng.choice(len(Xtr), size=nq, replace=False)].copy()
+  elif recipe['qkind'] == 'offset':
+    # points with a LARGE common offset and small exact differences (time stamps, map coordinates): x - x' is exact
+    Xq = 2.0 ** 40 * np.round(rng.normal(size=d) * 3.0) + np.round(rng.normal(size=(nq, d)) * 64.0) / 1024.0
   else:
     Xq = rng.normal(size=(nq, d)) * (10.0 ** rng.integers(-3, 4))
   Xq[1] = Xq[0]
@@ -118,6 +121,15 @@ def gen_trace(recipe):
   if len(pos) == len(P) and len(xpos) == nq:
     ev['reprs'].append({'name': 'large_batch', 'pd': obs.dyv(pd_big[pos]), 'transform': obs.dym(t_big[xpos])})
   if recipe['qkind'] == 'integer':
+    # pairs as UNSIGNED / narrow integer arrays (translated into the type's range: distances are translation invariant)
+    for dt in (np.uint64, np.uint8, np.int8):
+      info = np.iinfo(dt)
+      shift = (np.floor(-Xq.min(axis=0)) + 3) if info.min == 0 else np.zeros(d)
+      Q = Xq + shift
+      if Q.min() >= info.min and Q.max() <= info.max:
+        Qi = Q.astype(dt)
+        ev['reprs'].append({'name': 'pairs_as_%s' % np.dtype(dt).name, 'pd': obs.dyv(est.pair_distance(Qi[np.asarray(P)])),
+                            'transform': obs.dym(est.transform(Xq))})
     # the get_metric() function on integer VECTORS of narrow / unsigned types (the points translated into the type's range:
     # the learned distance is translation invariant)
     metric = est.get_metric()
@@ -151,12 +163,12 @@ def signature_of(recipe, tr, clause):
 
 def recipes(ctx):
   rng = np.random.default_rng(ctx.seed + 2)
-  n_cfg = 3 if ctx.quick else 12
+  n_cfg = 4 if ctx.quick else 12
   out = []
   for name in gen.ALL:
     for c in range(n_cfg):
       out.append(dict(est=name, d=int(rng.integers(2, 5 if ctx.quick else 9)), seed=int(rng.integers(1 << 30)),
-                      qkind=['integer', 'train', 'random'][c % 3], prep=['array', 'callable'][(c // 3 + c) % 2],
+                      qkind=['integer', 'train', 'random', 'offset'][c % 4], prep=['array', 'callable'][(c // 3 + c) % 2],
                       refit=bool(c % 2)))
   return out
 
